@@ -203,7 +203,7 @@ func VerifC03InSlice() {
 // parsing b2 into a fresh receiver with the same configuration.
 func VerifC03History() {
 	ti, ver, d := c03Pick()
-	lens := []int{5, 36, 62}
+	lens := []int{5, 7, 36, 62}
 	if vrt_Tier() > 0 {
 		lens = []int{0, 1, 2, 5, 7, 12, 28, 30, 33, 36, 40, 47, 62, 70, 105}
 	}
